@@ -77,7 +77,9 @@ func c19File(rng *rand.Rand) ([]byte, []faRec, string) {
 		}
 		buf.WriteString(">" + name)
 		if rng.Intn(2) == 0 {
-			buf.WriteString([]string{" ", "\t"}[rng.Intn(2)] + "some description " + fmt.Sprint(i))
+			// the name ends at the first blank, whichever kind it is and
+			// whatever follows
+			buf.WriteString([]string{" ", "\t"}[rng.Intn(2)] + []string{"some description ", "len=10\tsrc=lab ", "a\t \tb ", "x y\tz "}[rng.Intn(4)] + fmt.Sprint(i))
 		}
 		buf.WriteString(eol)
 		width := 1 + rng.Intn(80)
